@@ -25,7 +25,7 @@ CLAIM = dict(
           "Refuted with witnesses: a result type inheriting the operand's capacity (legacy resolver eval_t) has no room for a "
           "size-changing view; broadcast_shape's rule for a clipped operand. Tied to the C++ by printing, for 19 operand kinds x 20 view "
           "types x up to 4 admitted run-time shapes, the reported knowledge of operand and view types, the run-time shape/dim/size, and "
-          "the same for broadcasting binary views over 19 x 5 PAIRS of operand kinds (both operand orders) and 3-operand where views with a scalar operand; the evaluated result (shape + all elements) under both resolvers; the extracted checker gammab decides soundness of every "
+          "the same for broadcasting binary views over 19 x 6 PAIRS of operand kinds (second kind: the same kind or one of five families; both operand orders; one-sided (1,3)x(4,3) and two-sided (3,1)x(1,3) broadcasting, where the result has more elements than either operand, and a view over two such views) and 3-operand where views with a scalar operand; the evaluated result (shape + all elements) under both resolvers; the extracted checker gammab decides soundness of every "
           "report, the extracted rules must predict the reported knowledge on the modelled views."),
     ref="5.11", technique="Coq proof (abstract interpretation soundness, composition by induction) + two-stage differential correspondence",
     extra="Partial: only the 14 modelled view rules are proved sound for all shapes; other view types (6 here) are checked by the direct "
@@ -40,8 +40,8 @@ ASSUMPTIONS = ["un-modelled view types are covered by the run-time soundness rel
                "the legacy resolver (array::eval(view) without a resolver argument) is a known finding, see known_findings"]
 
 
-K2 = ["fixed", "ndarray_fs_db", "ndarray_hs_hb", "ndarray_ds_db", "ndarray_ls_fb"]
-BINOP = {0: "add_ab", 1: "add_ba", 2: "multiply_ab"}
+K2 = ["same", "fixed", "ndarray_fs_db", "ndarray_hs_hb", "ndarray_ds_db", "ndarray_ls_fb"]
+BINOP = {0: "add_ab", 1: "add_ba", 2: "multiply_ab", 3: "add_c31_d13", 4: "add_d13_c31", 5: "multiply_of_two_sided_adds"}
 WHERE = {0: "where_c3_scalar_y53", 1: "where_c3_y53_scalar", 2: "where_c53_x3_scalar", 3: "where_c3_x3_y53"}
 
 
